@@ -386,6 +386,11 @@ func beat(what string) {
 
 func runOnce(t *testing.T, c *Check, p *Plan) *Outcome {
 	beat(fmt.Sprintf("check=%s planseed=%d ops=%d", c.ID, p.Seed, len(p.Ops)))
+	if cur := os.Getenv("VERIF_SAVE_CURRENT"); cur != "" {
+		// so that a run that never comes back (busy loop) can still be replayed
+		b, _ := json.Marshal(p)
+		_ = os.WriteFile(cur, b, 0o644)
+	}
 	// the process-global math/rand is a source of nondeterminism the samplers
 	// draw from: pin it per run (needs GODEBUG=randseednop=0).
 	rand.Seed(int64(p.Seed))
